@@ -588,15 +588,30 @@ def s3_positions_misc(ctx):
         want = T('call', 'block_diag', T('star', T('call', '_load_multiple_files', C(nm), T('attr', me, 'subdirs'))))
         ctx.check(v == want, 'C12.S3', m, nm, '%s = block_diag of the per-probe matrices in input order' % nm,
                   '%s is saved as %s, not block_diag(*per-probe matrices in input order)' % (nm, show(v)[:80] if v is not None else 'nothing'))
-    tr = m.nodes(ast.Try)
-    okh = bool(tr) and any(h.type is not None and unparse(h.type) in ('FileNotFoundError', 'IOError', 'OSError') and any(isinstance(x, ast.Continue) for x in h.body) for h in tr[0].handlers)
-    alt = [i for i in m.nodes(ast.If) if 'exists' in unparse(i.test) and any(isinstance(x, ast.Continue) for x in i.body)]
-    if okh or alt:
-        ctx.holds('C12.S3', m, 'an optional matrix missing in the inputs is skipped', (tr[0] if okh else alt[0].test))
-    elif not tr and not any('exists' in unparse(i.test) for i in m.nodes(ast.If)):
+    # the skip may live in write_misc or in a helper it calls (helpers absent from the pinned tree are followed)
+    fns = [m] + [h_ for h_ in repo.transparent_closure(m) if h_ is not m]
+    okh = alt = None
+    any_try = any_exists = False
+    for f_ in fns:
+        for tr in f_.nodes(ast.Try):
+            any_try = True
+            for h in tr.handlers:
+                tys = [h.type] if h.type is not None and not isinstance(h.type, ast.Tuple) else (list(h.type.elts) if h.type is not None else [])
+                catches = any((dotted(t_) or '') in ('FileNotFoundError', 'IOError', 'OSError') for t_ in tys)
+                leaves = any(isinstance(x, ast.Continue) for x in h.body) if f_ is m else any(isinstance(x, ast.Return) for x in h.body)
+                if catches and leaves and not any(isinstance(n, ast.Raise) for x in h.body for n in ast.walk(x)):
+                    okh = tr
+        for i in f_.nodes(ast.If):
+            if any(isinstance(n, ast.Call) and q.method_name(n) in ('exists', 'is_file') for n in ast.walk(i.test)):
+                any_exists = True
+                if any(isinstance(x, (ast.Continue, ast.Return)) for x in i.body):
+                    alt = i
+    if okh is not None or alt is not None:
+        ctx.holds('C12.S3', m, 'an optional matrix missing in the inputs is skipped', (okh if okh is not None else alt.test))
+    elif not any_try and not any_exists:
         ctx.violated('C12.S3', m, 'write_misc', 'a missing optional matrix is not skipped: merging datasets without similar_templates / whitening files raises')
     else:
-        ctx.undecided('C12.S3', m, 'the skip of missing optional matrices is not in a recognised form', tr[0] if tr else None)
+        ctx.undecided('C12.S3', m, 'the skip of missing optional matrices is not in a recognised form')
 
 
 def d1_params(ctx):
